@@ -448,6 +448,10 @@ pub fn run(args: &Args) -> i32 {
     }
     _ => {}
   }
+  if (!quick || std::env::var("VERIF_FAMILIES").is_ok()) && !matches!(prop, Prop::C03 | Prop::C04 | Prop::C18 | Prop::C19) {
+    // the order family (staged exploration) for the other history properties as well (C03/C04 have it in both tiers)
+    groups.push(Group { enums: vec![], depth: 2, shapes: false, gen_consumer_only: false, crashes: 0, inject: false, max_roots: Some(1), faulty: false, slice: None, families: false, staged: Some(4) });
+  }
   if !quick || std::env::var("VERIF_FAMILIES").is_ok() {
     groups.push(Group { enums: vec![], depth: 4, shapes: false, gen_consumer_only: false, crashes: 0, inject: false, max_roots: Some(2), faulty: false, slice: None, families: true, staged: None });
   }
